@@ -221,6 +221,93 @@ func (p *xsdPkg) lexCheck(fn *ast.FuncDecl, before token.Pos) (src *string, ok b
 	return
 }
 
+// bodyShapeOK: every top-level statement of a Map* body is one the model accounts for — the
+// collapse assignment (first), a lexical-check `if !re.MatchString(param) { return … }`, the
+// `x, err := strconv.…(…)` assignment, `if err != nil { return … }`, the layout loop of the
+// date/time family (time.Parse + `if err == nil { return … }` only), and the final return.
+// Anything else (an extra check, a normalisation step, another parser) makes the facts `unknown`.
+func bodyShapeOK(fn *ast.FuncDecl) bool {
+	if fn.Type.Params == nil || len(fn.Type.Params.List) != 1 || len(fn.Type.Params.List[0].Names) != 1 {
+		return false
+	}
+	param := fn.Type.Params.List[0].Names[0].Name
+	singleReturn := func(b *ast.BlockStmt) bool {
+		if len(b.List) != 1 {
+			return false
+		}
+		_, ok := b.List[0].(*ast.ReturnStmt)
+		return ok
+	}
+	errCmp := func(e ast.Expr, op token.Token) bool {
+		b, ok := e.(*ast.BinaryExpr)
+		if !ok || b.Op != op {
+			return false
+		}
+		x, ok1 := b.X.(*ast.Ident)
+		y, ok2 := b.Y.(*ast.Ident)
+		return ok1 && ok2 && x.Name == "err" && y.Name == "nil"
+	}
+	for i, st := range fn.Body.List {
+		last := i == len(fn.Body.List)-1
+		switch st := st.(type) {
+		case *ast.AssignStmt:
+			if i == 0 && st.Tok == token.ASSIGN && len(st.Lhs) == 1 && len(st.Rhs) == 1 && isCollapseCall(st.Rhs[0], param) {
+				if id, ok := st.Lhs[0].(*ast.Ident); ok && id.Name == param {
+					continue
+				}
+			}
+			if st.Tok == token.DEFINE && len(st.Lhs) == 2 && len(st.Rhs) == 1 {
+				if c, ok := st.Rhs[0].(*ast.CallExpr); ok {
+					if sel, ok := c.Fun.(*ast.SelectorExpr); ok {
+						if id, ok := sel.X.(*ast.Ident); ok && id.Name == "strconv" {
+							continue
+						}
+					}
+				}
+			}
+			return false
+		case *ast.IfStmt:
+			if st.Init != nil || st.Else != nil || !singleReturn(st.Body) {
+				return false
+			}
+			if errCmp(st.Cond, token.NEQ) {
+				continue
+			}
+			if u, ok := st.Cond.(*ast.UnaryExpr); ok && u.Op == token.NOT {
+				if c, ok := u.X.(*ast.CallExpr); ok && len(c.Args) == 1 {
+					if sel, ok := c.Fun.(*ast.SelectorExpr); ok && sel.Sel.Name == "MatchString" {
+						if a, ok := c.Args[0].(*ast.Ident); ok && a.Name == param {
+							continue
+						}
+					}
+				}
+			}
+			return false
+		case *ast.RangeStmt:
+			if len(st.Body.List) != 2 {
+				return false
+			}
+			as, ok1 := st.Body.List[0].(*ast.AssignStmt)
+			ifs, ok2 := st.Body.List[1].(*ast.IfStmt)
+			if !ok1 || !ok2 || as.Tok != token.DEFINE || len(as.Rhs) != 1 || ifs.Init != nil || ifs.Else != nil || !errCmp(ifs.Cond, token.EQL) || !singleReturn(ifs.Body) {
+				return false
+			}
+			if c, ok := as.Rhs[0].(*ast.CallExpr); !ok || !isSel(c.Fun, "time", "Parse") {
+				return false
+			}
+		case *ast.SwitchStmt:
+			// MapBoolean: cases are evaluated (T1) by the caller
+		case *ast.ReturnStmt:
+			if !last {
+				return false
+			}
+		default:
+			return false
+		}
+	}
+	return true
+}
+
 func goIntOf(e ast.Expr) string {
 	id, ok := e.(*ast.Ident)
 	if !ok {
@@ -440,7 +527,7 @@ func genXsd(leanRoot string) {
 			calls := stdCalls(fn.Body, "strconv", "ParseInt", "ParseUint", "ParseFloat", "Atoi")
 			_, reOK := p.lexCheck(fn, token.Pos(1<<30))
 			src, _ := p.lexCheck(fn, token.Pos(1<<30))
-			if len(calls) == 1 && len(calls[0].Args) == 3 && reOK && src == nil {
+			if len(calls) == 1 && len(calls[0].Args) == 3 && reOK && src == nil && bodyShapeOK(fn) {
 				c := calls[0]
 				b, ok1 := intLit(c.Args[1])
 				bs, ok2 := intLit(c.Args[2])
@@ -495,7 +582,7 @@ func genXsd(leanRoot string) {
 		var re *string
 		if fn := p.funcs["Map"+t.goName]; fn != nil {
 			calls := stdCalls(fn.Body, "strconv", "ParseInt", "ParseUint", "ParseFloat")
-			if len(calls) == 1 && len(calls[0].Args) == 2 && isSel(calls[0].Fun, "strconv", "ParseFloat") {
+			if len(calls) == 1 && len(calls[0].Args) == 2 && isSel(calls[0].Fun, "strconv", "ParseFloat") && bodyShapeOK(fn) {
 				c := calls[0]
 				bs, ok := intLit(c.Args[1])
 				ac := argCollapse(fn, c.Args[0])
@@ -576,7 +663,7 @@ func genXsd(leanRoot string) {
 	for _, t := range strs {
 		collapse, okShape := false, false
 		var re *string
-		if fn := p.funcs["Map"+t.goName]; fn != nil && len(stdCalls(fn.Body, "strconv", "ParseInt", "ParseUint", "ParseFloat")) == 0 {
+		if fn := p.funcs["Map"+t.goName]; fn != nil && len(stdCalls(fn.Body, "strconv", "ParseInt", "ParseUint", "ParseFloat")) == 0 && bodyShapeOK(fn) {
 			// the last statement returns T(<arg>), nil
 			if ret, ok := fn.Body.List[len(fn.Body.List)-1].(*ast.ReturnStmt); ok && len(ret.Results) == 2 {
 				if c, ok := ret.Results[0].(*ast.CallExpr); ok && len(c.Args) == 1 {
@@ -628,7 +715,7 @@ func genXsd(leanRoot string) {
 					rng = r
 				}
 			}
-			if rng != nil {
+			if rng != nil && bodyShapeOK(fn) {
 				if cl, ok := rng.X.(*ast.CompositeLit); ok {
 					var ls []string
 					good := true
@@ -662,7 +749,7 @@ func genXsd(leanRoot string) {
 		collapse := false
 		var tc, fc []string
 		shape := false
-		if fn := p.funcs["MapBoolean"]; fn != nil {
+		if fn := p.funcs["MapBoolean"]; fn != nil && bodyShapeOK(fn) {
 			for _, st := range fn.Body.List {
 				if sw, ok := st.(*ast.SwitchStmt); ok && sw.Init == nil && sw.Tag != nil {
 					ac := argCollapse(fn, sw.Tag)
